@@ -187,8 +187,9 @@ impl Stmt {
             Stmt::DropColumn { table, col } => format!("ALTER TABLE {table} DROP COLUMN {col}"),
             Stmt::SetNotNull { table, col } => format!("ALTER TABLE {table} ALTER COLUMN {col} SET NOT NULL"),
             Stmt::DropNotNull { table, col } => format!("ALTER TABLE {table} ALTER COLUMN {col} DROP NOT NULL"),
-            Stmt::AddUnique { table, name, cols } => {
-                format!("ALTER TABLE {table} ADD CONSTRAINT {name} UNIQUE ({})", cols.join(", "))
+            Stmt::AddUnique { table, cols, .. } => {
+                // the engine's grammar has no constraint name here
+                format!("ALTER TABLE {table} ADD CONSTRAINT UNIQUE ({})", cols.join(", "))
             }
             Stmt::Failing { sql, .. } => sql.clone(),
         }
@@ -355,6 +356,13 @@ pub struct Model {
     /// listed findings whose exact engine behaviour the model reproduced on this history (the history stays judged)
     #[serde(default)]
     pub quirks: Vec<String>,
+    /// engine-side state changes made on a quirk path that the model's own state does not show (part of the key)
+    #[serde(default)]
+    pub quirk_marks: Vec<String>,
+    /// the last successful DDL statements in order: two orders of the same schema changes end in the same model
+    /// state but not necessarily in the same catalogue state of the engine, so the order is part of the key
+    #[serde(default)]
+    pub ddl_trail: Vec<String>,
     /// known-finding ids this run is allowed to use as hazards
     pub enabled_hazards: BTreeSet<String>,
     /// transactions with an in-place-update hazard pending (KF-update-in-place)
@@ -365,6 +373,12 @@ pub struct Model {
     pub pending_reinsert: BTreeSet<Tx>,
     pub reopen_count: u32,
     pub vacuum_count: u32,
+    /// maintenance operations (V vacuum, R reopen, F flush) since the last operation that could change data, in
+    /// order. They do not change the model's contents but they do change the engine's internal state, and their
+    /// ORDER matters there (what a VACUUM may discard depends on what committed before it), so it is part of the
+    /// state key; otherwise `reopen; vacuum` and `vacuum; reopen` would be merged and only one of them extended
+    #[serde(default)]
+    pub maint_trail: String,
     /// highest transaction that has committed so far and whether the most recent commit was by an
     /// older transaction than that (engine-side counters can tell these situations apart)
     pub max_committed: Option<Tx>,
@@ -402,11 +416,14 @@ impl Model {
             vacuum_with_sessions: false,
             taint: vec![],
             quirks: vec![],
+            quirk_marks: vec![],
+            ddl_trail: vec![],
             enabled_hazards: enabled.clone(),
             pending_update: BTreeSet::new(),
             pending_reinsert: BTreeSet::new(),
             reopen_count: 0,
             vacuum_count: 0,
+            maint_trail: String::new(),
             max_committed: None,
             last_commit_out_of_order: false,
         }
@@ -668,7 +685,16 @@ impl Model {
     pub fn exec(&mut self, t: Tx, s: &Stmt) -> Exp {
         let backup = (self.tables.clone(), self.taint.clone(), self.pending_update.clone());
         match self.exec_inner(t, s) {
-            Ok(e) => e,
+            Ok(e) => {
+                if s.is_ddl() {
+                    // the ORDER in which schema changes were applied is engine state (see `ddl_trail`)
+                    self.ddl_trail.push(s.sql());
+                    if self.ddl_trail.len() > 4 {
+                        self.ddl_trail.remove(0);
+                    }
+                }
+                e
+            }
             Err(c) => {
                 self.tables = backup.0;
                 // hazards raised during a failing statement stay raised
@@ -836,7 +862,27 @@ impl Model {
                 for c in cols {
                     def.col_idx(c).ok_or(ErrClass::Bind)?;
                 }
-                self.hazard(KF_ADD_UNIQUE);
+                // listed finding (exact quirk): ALTER TABLE ... ADD CONSTRAINT UNIQUE records the constraint but builds
+                // no index, and uniqueness is enforced through indexes only - so nothing is enforced until a CREATE
+                // UNIQUE INDEX on the same columns comes along. The model follows the engine and keeps judging.
+                // existing duplicates make the ALTER fail (the engine does build an index for the check)
+                let vis = self.visible_rows(t, ti);
+                let mut seen = BTreeSet::new();
+                for (_, v) in &vis {
+                    if let Some(k) = Self::unique_key(&def, cols, v) {
+                        if !seen.insert(k) {
+                            return Err(ErrClass::Unique);
+                        }
+                    }
+                }
+                if self.txs[t as usize].explicit || self.active_txs().len() > 1 {
+                    self.hazard(KF_INDEX_DDL_IN_TXN);
+                }
+                if self.quirk(KF_ADD_UNIQUE) {
+                    // the engine's state did change (the constraint is recorded): keep that in the state key
+                    self.quirk_marks.push(format!("declared-unique:{table}({})", cols.join(",")));
+                    return Ok(Exp::Ddl);
+                }
                 def.uniques.push(cols.clone());
                 self.tables[ti].defs.push((t, def));
                 Ok(Exp::Ddl)
@@ -923,6 +969,18 @@ impl Model {
     /// For `Audit` the answer is one Exp::Rows per committed table (in name order).
     pub fn apply(&mut self, op: &Op) -> Vec<Exp> {
         match op {
+            Op::Vacuum => self.maint_trail.push('V'),
+            Op::Reopen => self.maint_trail.push('R'),
+            Op::Flush => self.maint_trail.push('F'),
+            Op::Audit | Op::Analyze => {}
+            Op::Auto(s) | Op::In(_, s) if s.is_read() => {}
+            _ => self.maint_trail.clear(),
+        }
+        if self.maint_trail.len() > 3 {
+            let cut = self.maint_trail.len() - 3;
+            self.maint_trail.drain(..cut);
+        }
+        match op {
             Op::Auto(s) => {
                 let t = self.begin_tx(false);
                 let e = self.exec(t, s);
@@ -987,6 +1045,11 @@ impl Model {
                 // documented behaviour: VACUUM aborts every open transaction
                 let open: Vec<(u8, Tx)> = self.sessions.iter().map(|(k, v)| (*k, *v)).collect();
                 for (_, t) in &open {
+                    if self.txs[*t as usize].state == TxState::Aborted {
+                        // a session whose transaction an EARLIER VACUUM aborted: this VACUUM's clean-up drops the
+                        // aborted entry altogether (same listed finding as below)
+                        self.hazard(KF_VACUUM_FORGETS_OLDER_OPEN_TX);
+                    }
                     if self.txs[*t as usize].state == TxState::Active {
                         // listed finding: an open transaction that is OLDER than the newest commit is forgotten by
                         // VACUUM's clean-up instead of staying aborted; what its session writes afterwards is
@@ -1102,7 +1165,9 @@ impl Model {
         let mut s = String::new();
         for tb in &self.tables {
             if tb.purged {
-                s.push_str("[purged]");
+                // how the object died stays in the key: a table whose CREATE was rolled back and a table that was
+                // created and dropped leave different garbage behind in the engine, even after VACUUM
+                s.push_str(&format!("[purged cr={} dr={}]", tx(tb.created_by), tb.dropped_by.map(tx).unwrap_or("-".into())));
                 continue;
             }
             s.push_str(&format!("[{} cr={} dr={} defs=", tb.defs[0].1.name, tx(tb.created_by), tb.dropped_by.map(tx).unwrap_or("-".into())));
@@ -1119,13 +1184,16 @@ impl Model {
             s.push(']');
         }
         s.push_str(&format!(
-            " open={:?} pend={}/{} taint={:?} reopen={} vac={} ooo={}",
+            " open={:?} pend={}/{} taint={:?} quirk={:?} ddl={:?} reopen={} vac={} maint={} ooo={}",
             self.sessions.keys().collect::<Vec<_>>(),
             self.pending_update.len(),
             self.pending_reinsert.len(),
             self.taint,
+            self.quirk_marks,
+            self.ddl_trail,
             self.reopen_count.min(1),
             self.vacuum_count.min(1),
+            self.maint_trail,
             self.last_commit_out_of_order
         ));
         s
